@@ -1,6 +1,7 @@
 package main
 
 import (
+	"fmt"
 	"go/ast"
 	"go/token"
 	"go/types"
@@ -167,6 +168,16 @@ func checkGuardedFields(p *Program, r *Report, table []guardedField) {
 				if write && !ls[mu] && ls["R:"+mu] {
 					bad = "write of " + gf.Type + "." + gf.Field + " under the read lock only"
 				}
+				if !held && root != nil && exprStr(sel.X) == root.Name && p.isReceiverOf(fi, root) {
+					if _, inLit := p.enclosingFuncNode(sel).(*ast.FuncLit); !inLit {
+						// a private helper that relies on its callers: every call site must hold the lock
+						if okC, whyC := p.heldAtAllCallSites(fi, gf.Mutex, write, 0); okC {
+							held, why = true, whyC
+						} else if whyC != "" {
+							bad += "; " + whyC
+						}
+					}
+				}
 				r.Check(held, sel, name, why, bad+" (data race; the field is guarded by that mutex everywhere else)")
 			}
 		})
@@ -218,3 +229,84 @@ func checkGuardedFields(p *Program, r *Report, table []guardedField) {
 
 // heldLocks renders a lockset.
 func heldLocks(ls strset) string { return strings.Join(ls.sorted(), ",") }
+
+// isReceiverOf: id is the receiver variable of method fi.
+func (p *Program) isReceiverOf(fi *FuncInfo, id *ast.Ident) bool {
+	if fi.Decl.Recv == nil || len(fi.Decl.Recv.List) != 1 || len(fi.Decl.Recv.List[0].Names) != 1 {
+		return false
+	}
+	info := fi.Pkg.TypesInfo
+	return info.Uses[id] != nil && info.Uses[id] == info.Defs[fi.Decl.Recv.List[0].Names[0]]
+}
+
+// heldAtAllCallSites: target is an unexported method that is only ever called, and every call site holds
+// <receiver>.<mutexField> (the write lock when needWrite) - directly, or because the calling method is itself
+// such a helper on the same receiver.
+func (p *Program) heldAtAllCallSites(target *FuncInfo, mutexField string, needWrite bool, depth int) (bool, string) {
+	if depth > 3 || target.Obj == nil || target.Obj.Exported() {
+		return false, ""
+	}
+	if p.usedAsValue(target) {
+		return false, target.Name + " is also used as a function value"
+	}
+	nsites := 0
+	bad := ""
+	for _, caller := range p.SortedFuncs() {
+		if caller.Decl.Body == nil {
+			continue
+		}
+		cinfo := caller.Pkg.TypesInfo
+		ast.Inspect(caller.Decl.Body, func(x ast.Node) bool {
+			c, ok := x.(*ast.CallExpr)
+			if !ok || bad != "" {
+				return true
+			}
+			fn := calleeOf(cinfo, c)
+			if fn == nil || p.FuncOf(fn) != target {
+				return true
+			}
+			nsites++
+			switch p.Parent(c).(type) {
+			case *ast.GoStmt:
+				bad = "started as a goroutine at " + p.Pos(c)
+				return true
+			case *ast.DeferStmt:
+				bad = "deferred at " + p.Pos(c)
+				return true
+			}
+			rx := recvExpr(c)
+			if rx == nil {
+				bad = "call without receiver at " + p.Pos(c)
+				return true
+			}
+			g := p.GraphOf(caller)
+			if lit, ok := p.enclosingFuncNode(c).(*ast.FuncLit); ok {
+				g = p.GraphOfLit(caller, lit)
+			}
+			ls, reach := g.Lockset().Before(c)
+			if !reach {
+				return true
+			}
+			mu := exprStr(rx) + "." + mutexField
+			if ls[mu] || !needWrite && ls["R:"+mu] {
+				return true
+			}
+			if id, isId := ast.Unparen(rx).(*ast.Ident); isId && p.isReceiverOf(caller, id) {
+				if _, inLit := p.enclosingFuncNode(c).(*ast.FuncLit); !inLit {
+					if okUp, _ := p.heldAtAllCallSites(caller, mutexField, needWrite, depth+1); okUp {
+						return true
+					}
+				}
+			}
+			bad = "call site " + p.Pos(c) + " in " + caller.Name + " does not hold " + mu
+			return true
+		})
+	}
+	if bad != "" {
+		return false, target.Name + " relies on its callers for the lock, but " + bad
+	}
+	if nsites == 0 {
+		return false, ""
+	}
+	return true, fmt.Sprintf("lock held at all %d call sites of %s", nsites, target.Name)
+}
